@@ -742,6 +742,10 @@ class Fxp():
 
         if vdtype is None:
             vdtype = val.dtype
+            # narrow integer elements (e.g. a list of np.int8 or np.int32 scalars) would wrap
+            # silently when scaled by 2**n_frac in their own type
+            if val.dtype.kind in 'iu' and val.dtype.itemsize < 8:
+                vdtype = int
         
         # scaling conversion
         self.scaled = False
